@@ -17,7 +17,7 @@ use yamaquasi::Uint;
 use crate::common::*;
 use crate::refmodel::{self as rm, W};
 
-fn mulmod(a: u64, b: u64, q: u64) -> u64 {
+pub(crate) fn mulmod(a: u64, b: u64, q: u64) -> u64 {
     ((a as u128 * b as u128) % q as u128) as u64
 }
 fn addmod(a: u64, b: u64, q: u64) -> u64 {
@@ -26,7 +26,7 @@ fn addmod(a: u64, b: u64, q: u64) -> u64 {
 fn submod(a: u64, b: u64, q: u64) -> u64 {
     ((a as u128 + q as u128 - (b % q) as u128) % q as u128) as u64
 }
-fn powmod(mut a: u64, mut e: u64, q: u64) -> u64 {
+pub(crate) fn powmod(mut a: u64, mut e: u64, q: u64) -> u64 {
     let mut r = 1 % q;
     a %= q;
     while e > 0 {
@@ -38,7 +38,7 @@ fn powmod(mut a: u64, mut e: u64, q: u64) -> u64 {
     }
     r
 }
-fn invmod(a: u64, q: u64) -> Option<u64> {
+pub(crate) fn invmod(a: u64, q: u64) -> Option<u64> {
     if a % q == 0 {
         None
     } else {
@@ -48,22 +48,22 @@ fn invmod(a: u64, q: u64) -> Option<u64> {
 
 /// Reference curve a x^2 + y^2 = 1 + d x^2 y^2 over F_q (a = 1 or q-1).
 #[derive(Clone, Copy, Debug)]
-struct RefCurve {
-    q: u64,
-    a: u64,
-    d: u64,
+pub(crate) struct RefCurve {
+    pub q: u64,
+    pub a: u64,
+    pub d: u64,
 }
 
-type Aff = (u64, u64);
+pub(crate) type Aff = (u64, u64);
 
 impl RefCurve {
-    fn on_curve(&self, p: Aff) -> bool {
+    pub fn on_curve(&self, p: Aff) -> bool {
         let q = self.q;
         let (x2, y2) = (mulmod(p.0, p.0, q), mulmod(p.1, p.1, q));
         addmod(mulmod(self.a, x2, q), y2, q) == addmod(1, mulmod(self.d, mulmod(x2, y2, q), q), q)
     }
     /// Affine addition; None when a denominator vanishes (exceptional pair).
-    fn add(&self, p: Aff, r: Aff) -> Option<Aff> {
+    pub fn add(&self, p: Aff, r: Aff) -> Option<Aff> {
         let q = self.q;
         let t = mulmod(self.d, mulmod(mulmod(p.0, r.0, q), mulmod(p.1, r.1, q), q), q);
         let dx = invmod(addmod(1, t, q), q)?;
@@ -72,11 +72,11 @@ impl RefCurve {
         let y = mulmod(submod(mulmod(p.1, r.1, q), mulmod(self.a, mulmod(p.0, r.0, q), q), q), dy, q);
         Some((x, y))
     }
-    fn neg(&self, p: Aff) -> Aff {
+    pub fn neg(&self, p: Aff) -> Aff {
         ((self.q - p.0) % self.q, p.1)
     }
     /// [k]P by double-and-add with the unified affine law (None on an exceptional step).
-    fn mul_w(&self, k: &W, p: Aff) -> Option<Aff> {
+    pub fn mul_w(&self, k: &W, p: Aff) -> Option<Aff> {
         let mut res = (0u64, 1u64);
         let mut sq = p;
         for i in 0..k.bits() {
@@ -91,7 +91,7 @@ impl RefCurve {
 
 struct Ctxc<'a> {
     zn: &'a ZmodN,
-    q: u64,
+    pub q: u64,
 }
 
 impl<'a> Ctxc<'a> {
